@@ -48,7 +48,7 @@ func runC18(c *core.Case) *core.Result {
 // ---- (a) notification content and count
 
 func c18Content(c *core.Case) *core.Result {
-	s, err := newSvcScenario(c, 5)
+	s, err := newSvcScenario(c, 5, false)
 	if err != nil {
 		return c.Inconclusive("test bed did not start: %v", err)
 	}
